@@ -143,6 +143,22 @@ theorem consumers_agree_iff (q : Seq) :
         rw [hf, hg]
     exact ⟨key, (consumers_int_agree_all s q).symm.trans key⟩
 
+/-- **Whether a consumer panics on a list does not depend on the style** (control flow never reads it): it panics from some
+    style iff it panics from every style iff it panics from the zero style — so `sgr_total`'s "no panic" can be tested at one style. -/
+theorem sgr_panic_style_independent (q : Seq) (s : Style) :
+    (parseSGR s q = .error .index ↔ parseSGR {} q = .error .index) ∧
+    (emuSgr s q = .error .index ↔ emuSgr {} q = .error .index) ∧
+    (ssSeq {} s q = .error .index ↔ ssSeq {} {} q = .error .index) := by
+  have int : ∀ cfg, (intSgr cfg s q = .error .index ↔ intSgr cfg {} q = .error .index) := by
+    intro cfg
+    rcases intSgr_shaped cfg q with ⟨F, _, hf⟩ | hf
+    · rw [hf s, hf {}]; constructor <;> intro h <;> cases h
+    · rw [hf s, hf {}]
+  refine ⟨int parseCfg, int emuCfg, ?_⟩
+  rcases ssSeq_shaped q with ⟨F, _, hf⟩ | hf
+  · rw [hf s, hf {}]; constructor <;> intro h <;> cases h
+  · rw [hf s, hf {}]
+
 theorem agreeClass_sub_exact (q : Seq) (h : agreeClass q = true) : agreeExact q = true :=
   (consumers_agree_iff q).mp (fun s _ => consumers_agree_on_class s q h)
 
